@@ -4,7 +4,6 @@ import (
 	"bytes"
 	"crypto"
 	"crypto/ecdsa"
-	"crypto/rand"
 	"crypto/rsa"
 	"crypto/x509/pkix"
 	"encoding/asn1"
@@ -221,7 +220,7 @@ func (s *CRLSpec) sign(tbs []byte) []byte {
 	var sig []byte
 	var err error
 	if s.Alg.Name == "ed25519" {
-		sig, err = s.Signer.Sign(rand.Reader, tbs, crypto.Hash(0))
+		sig, err = s.Signer.Sign(DetRand, tbs, crypto.Hash(0))
 	} else {
 		h := s.Alg.Hash.New()
 		h.Write(tbs)
@@ -229,14 +228,14 @@ func (s *CRLSpec) sign(tbs []byte) []byte {
 		switch k := s.Signer.(type) {
 		case *rsa.PrivateKey:
 			if s.Alg.PSS {
-				sig, err = rsa.SignPSS(rand.Reader, k, s.Alg.Hash, digest, &rsa.PSSOptions{SaltLength: 32})
+				sig, err = rsa.SignPSS(DetRand, k, s.Alg.Hash, digest, &rsa.PSSOptions{SaltLength: 32})
 			} else {
-				sig, err = rsa.SignPKCS1v15(rand.Reader, k, s.Alg.Hash, digest)
+				sig, err = rsa.SignPKCS1v15(DetRand, k, s.Alg.Hash, digest)
 			}
 		case *ecdsa.PrivateKey:
-			sig, err = ecdsa.SignASN1(rand.Reader, k, digest)
+			sig, err = ecdsa.SignASN1(DetRand, k, digest)
 		default:
-			sig, err = s.Signer.Sign(rand.Reader, digest, s.Alg.Hash)
+			sig, err = s.Signer.Sign(DetRand, digest, s.Alg.Hash)
 		}
 	}
 	if err != nil {
